@@ -110,12 +110,13 @@ class Watch:
         self.inject = None  # bytes to inject when the next attempt starts
         self.inject_more = []  # further batches, one per (re)open of the temp file within an attempt
         self.current = None
+        self.starting = False  # inside start_persistence(): the first scheduled save runs in the caller's thread (threaded flavours)
         world.sim.save_hook = self.hook
 
     def hook(self, phase, persistence, exc):
         sim = self.world.sim
         role = sim.current.role if sim.current is not None else "?"
-        if role not in ("timer", "executor"):
+        if role not in ("timer", "executor") and not self.starting:
             return
         if phase == "begin":
             tick = {"t": sim.now, "role": role, "dirty": bool(persistence.need_save)}
@@ -162,7 +163,7 @@ class Watch:
         if rec is None:
             return
         cur = self.world.sim.current
-        if cur is None or cur.role not in ("timer", "executor"):
+        if cur is None or (cur.role not in ("timer", "executor") and not self.starting):
             return  # an operation of another save (stop()'s own): the fault script is for scheduled attempts
         if opname == "open" and self.inject_more:
             # more traffic arrives whenever this attempt (re)opens its temp file: a second pass over the data, if the
@@ -199,7 +200,11 @@ def run(case):
     try:
         try:
             gateway = world.build()
-            world.start(persistence=True)
+            watch.starting = True
+            try:
+                world.start(persistence=True)
+            finally:
+                watch.starting = False
             world.feed("1;255;0;0;17;2.0\n1;1;0;0;23;x\n" + "".join(line + "\n" for line in cfg["base"]))
             t_next = 10.0
             for period in case["ops"]:
